@@ -307,7 +307,7 @@ DiffEnt(p, sp, ps, e, g) ==
     \cup C(e.hidden = g.hidden, p \o ".hidden") \cup C(MapIds(ps.group, e.groups) = g.groups, p \o ".groups")
     \cup C(MapIds(ps.vis, e.vis) = g.vis, p \o ".vis") \cup C(e.visShown = g.visShown, p \o ".visShown")
     \cup C(e.visAuto = g.visAuto, p \o ".visAuto") \cup C(e.color = g.color, p \o ".color")
-    \cup C(e.logical = g.logical, p \o ".logical") \cup C(e.comments = g.comments, p \o ".comments")
+    \cup C(p = "world" \/ e.logical = g.logical, p \o ".logical")   \* worldspawn has no logicalpos in the file \cup C(e.comments = g.comments, p \o ".comments")
     \cup DiffSeq(e.solids, g.solids, LAMBDA x, y : DiffSolid(sp, ps, x, y), p \o ".solids.count")
 DiffSet(e, g) == UNION {C(e[f] = g[f], "set." \o f) : f \in DOMAIN e}
 DiffVisFlat(e, g) == C(e.name = g.name, "vis.name") \cup C(e.color = g.color, "vis.color") \cup C(e.nk = g.nk, "vis.tree")
@@ -335,7 +335,8 @@ Aligned(e, g) ==
 OrderClauses(e, g) == C(Len(e.ents) # Len(g.ents) \/ Pattern(e.ents) = Pattern(g.ents), "ents.order")
 
 (* ------------------------------------------------------------ exported text as a token stream *)
-\* token = [d, t, k, v, ik, n, p]: depth, "open"|"close"|"kv", key, value, ID kind (or ""), ID, block path
+\* token = [d, t, k, v, ik, n, p, c]: depth, "open"|"close"|"kv", key, value, ID kind (or ""), ID, block path,
+\* clause label (path/key with row numbers and user key names abstracted)
 MapTok(ps, t) == IF t.ik = "" THEN t ELSE [t EXCEPT !.n = MapId(ps[t.ik], @)]
 FirstDiff(a, b) == CHOOSE i \in 1..(Min2(Len(a), Len(b)) + 1) :
                       /\ (i <= Min2(Len(a), Len(b)) => a[i] # b[i])
@@ -344,6 +345,7 @@ TextClauses(ps, t1, t2) ==
     LET m == MapSeq(LAMBDA t : MapTok(ps, t), t1)
         i == FirstDiff(m, t2)
     IN  IF m = t2 THEN {}
+        ELSE IF Len(m) = Len(t2) THEN {"text:" \o m[j].c : j \in {j \in 1..Len(m) : m[j] # t2[j]}}
         ELSE IF i > Len(m) THEN {"text:longer"}
-        ELSE {"text:" \o m[i].p \o "/" \o (IF m[i].t = "close" THEN "}" ELSE m[i].k)}
+        ELSE {"text:" \o m[i].c}
 =============================================================================
